@@ -348,7 +348,8 @@ func hasAttribute(obj interface{}, name string) bool {
 	switch rv.Kind() {
 	case reflect.Map:
 		if rv.Type().Key().Kind() != reflect.String {
-			if rv.Type().Key().Kind() == reflect.Interface {
+			// (an interface key type with methods cannot hold a string)
+			if rv.Type().Key().Kind() == reflect.Interface && reflect.TypeOf(name).AssignableTo(rv.Type().Key()) {
 				return rv.MapIndex(reflect.ValueOf(name)).IsValid()
 			}
 			return false
@@ -1660,6 +1661,10 @@ func (ctx *RenderContext) getAttribute(obj interface{}, attr string) (interface{
 	// A map with interface keys may hold the name as a string key; m.name and
 	// m['name'] mean the same
 	if objValue.Kind() == reflect.Map && objValue.Type().Key().Kind() == reflect.Interface {
+		// (an interface key type with methods cannot hold a string)
+		if !reflect.TypeOf(attr).AssignableTo(objValue.Type().Key()) {
+			return nil, nil
+		}
 		value := objValue.MapIndex(reflect.ValueOf(attr))
 		if value.IsValid() && value.CanInterface() {
 			return value.Interface(), nil
